@@ -1,12 +1,12 @@
-CONSTANTS MaxEdits = 3
- Flaw_DirNames = TRUE
+CONSTANTS MaxEdits = 2
+ Flaw_DirNames = FALSE
  Flaw_Paths = FALSE
  Flaw_NoOutput = FALSE
- Flaw_Args = FALSE
+ Flaw_Args = TRUE
  Shape = 0
  Menu = "all"
  EmitAll = FALSE
 SPECIFICATION Spec
-INVARIANTS EmitHist
+INVARIANTS C11a C11b C11c NoOp
 VIEW View
 CHECK_DEADLOCK FALSE
